@@ -4,7 +4,7 @@ from .. import monitor, mon_alg, w_alg
 LEVEL = 'exploration'
 SHARDS = {'quick': 2, 'thorough': 16}
 BUDGET = {'quick': 60, 'thorough': 600}
-RULE = ('merge() is driven over every ordered pair of U({a,b},1) (exhaustive; thorough: also every pair of '
+RULE = ('(also: inputs that stem from ONE function -- its own signature and those of partial objects presetting keywords, in both orders -- and default values that compare equal to everything) merge() is driven over every ordered pair of U({a,b},1) (exhaustive; thorough: also every pair of '
         'U({a,b,c},2)) plus VERIF_SEED-seeded random pairs/triples/quadruples from U({a,b,c},3) and U({a,b,c,d},3), '
         'and through Combination objects and discovered multi-call wrappers; the monitor on the real merge compares '
         'acceptance tables built by really calling stub functions. A case is non-trivial when merge returned a '
